@@ -93,6 +93,7 @@ def _rules():
         "content": [
             lambda R, c, rid: shared.content_tables(R, c, rid),
             lambda R, c, rid: accessors.read_honours_offset(R, c, rid),
+            lambda R, c, rid: accessors.first_last_table(R, c, rid),
         ],
         "export": [
             lambda R, c, rid: c06.rule_b(R, c, rid),
@@ -183,7 +184,7 @@ DEPENDS = {
     "C02": ["stash-deletes", "lookup", "export", "block-wire", "merge", "state-vector"],
     "C03": ["splice", "conflict", "lookup", "content", "map-api", "text-units", "creation", "liveness", "type-api"],
     "C04": ["splice", "dependency", "stash-deletes", "lookup", "content", "block-iter", "update-events", "liveness", "block-wire"],
-    "C05": ["conflict", "squash", "splice", "dependency", "map-api", "merge", "delete-set", "update-events", "liveness", "type-api"],
+    "C05": ["conflict", "squash", "splice", "dependency", "map-api", "merge", "delete-set", "update-events", "liveness", "type-api", "content"],
     "C06": ["dependency", "delete-set", "slice", "partial", "lookup", "content", "merge", "state-vector", "liveness", "block-wire"],
     "C07": ["delete-set", "slice", "partial", "export", "liveness", "block-wire", "state-vector", "creation"],
     "C08": ["slice", "delete-set", "partial", "block-wire", "state-vector", "merge", "lookup"],
